@@ -64,7 +64,9 @@ def gresCode : GRes → Nat
 only abort its in-flight `addCandidate` (`pubTask`/`pubSkip` are not enabled for it: the task re-checks
 the context, agent.go L1364) and run to its end without publishing anything
 (`IceProps.C11.C11_cancelled_cycle_publishes_nothing`), so it is moved to `done` eagerly.
-The ghost `published` list (never read by `step`) is cleared. -/
+The ghost `published` list and the candidate list `locals` (neither is read by `step`'s guards, and these histories
+do not observe the list) are cleared.  For a cancelled cycle with the loop open `pubAbort` stands for `pubRefuse` as
+well (same transition, `IceProps.C11.C11_handoff_of_cancelled_cycle_is_refused`). -/
 def norm (st : State) : State :=
   let st := (List.range st.cycles.length).foldl (fun st i =>
     match st.cycles[i]? with
@@ -76,7 +78,7 @@ def norm (st : State) : State :=
         (step st (.cycleFinish i)).getD st
       else st
     | none => st) st
-  { st with published := [] }
+  { st with published := [], locals := [] }
 
 /-- one unobserved step of cycle `c`, publications checked against the callback list -/
 def internalSucc0 (cbs : List (Option Nat)) (c : Cfg) : List Cfg :=
